@@ -107,6 +107,64 @@ fn in_build(ck: CK, i: u32, j: u32, bottom_up: bool) -> bool {
   EXECS.with(|e| e.borrow().contains(&"req"))
 }
 
+/// What a requirer may legitimately derive from the required output under each checker (the part the checker observes).
+fn observed(ck: CK, o: &R) -> i32 {
+  match ck {
+    CK::Equals => match o { Ok(v) => *v as i32, Err(e) => 100 + *e as i32 },
+    CK::OkEquals => match o { Ok(v) => *v as i32, Err(_) => -1 },
+    CK::ErrEquals => match o { Err(e) => *e as i32, Ok(_) => -1 },
+    CK::Result => o.is_ok() as i32,
+    CK::Always => 0,
+  }
+}
+
+#[derive(Clone, PartialEq, Eq, Hash, Debug)]
+struct Obs(CK);
+impl Task for Obs {
+  type Output = i32;
+  fn execute<C: Context>(&self, ctx: &mut C) -> i32 {
+    let o = match self.0 {
+      CK::Equals => ctx.require(&Leaf, EqualsChecker),
+      CK::OkEquals => ctx.require(&Leaf, OkEqualsChecker),
+      CK::ErrEquals => ctx.require(&Leaf, ErrEqualsChecker),
+      CK::Result => ctx.require(&Leaf, ResultChecker),
+      CK::Always => ctx.require(&Leaf, AlwaysConsistent),
+    };
+    observed(self.0, &o)
+  }
+}
+
+/// C01 / C03 with pie's *built-in* output checkers: a requirer whose output depends exactly on what its checker
+/// observes of the required task's Result output; every transition i -> j of the required output (8 x 8), every
+/// checker, top-down (`C01`) or bottom-up followed by a require (`C03`): the value returned must be the from-scratch one.
+pub fn builtin_checker_builds(which: &'static str, seed: u64) -> Report {
+  let mut rep = Report::new();
+  let dom = domain();
+  for ck in ALL { for i in 0..dom.len() as u32 { for j in 0..dom.len() as u32 {
+    crate::log::clear();
+    let mut pie: Pie<()> = Pie::default();
+    pie.resource_state_mut::<Res>().get_or_set_default_mut::<CellStore>().set(0, Some(i));
+    let first = pie.new_session().require(&Obs(ck));
+    pie.resource_state_mut::<Res>().get_or_set_default_mut::<CellStore>().set(0, Some(j));
+    let second = {
+      let mut s = pie.new_session();
+      if which == "C03" { let mut bu = s.create_bottom_up_build(); bu.schedule_tasks_affected_by(&Res(0)); bu.update_affected_tasks(); }
+      s.require(&Obs(ck))
+    };
+    let _ = crate::log::take();
+    rep.evaluations += 1;
+    rep.count("builtin_output_checker_transitions_in_builds");
+    let (w1, w2) = (observed(ck, &dom[i as usize]), observed(ck, &dom[j as usize]));
+    if first != w1 || second != w2 {
+      let msg = format!("requirer using pie's {:?} checker: required output {:?} -> {:?} ({}): returned {} then {}, executing from scratch gives {} then {}", ck, dom[i as usize], dom[j as usize], if which == "C03" { "bottom-up build, then require" } else { "top-down" }, first, second, w1, w2);
+      rep.alarm(Alarm { property: which, signature: format!("builtin-output-checker:{:?}", ck), summary: msg.clone(),
+        case: J::obj().with("sub", J::s("builtin-checkers")).with("case", J::from((i * 8 + j) as u64)).with("seed", J::from(seed)), detail: J::obj().with("message", J::s(msg)) });
+    }
+    if w1 != w2 { rep.nontrivial(0xB1C0 ^ ((ck as u64) << 16) ^ (i as u64 * 8 + j as u64)); }
+  } } }
+  rep
+}
+
 fn gen_rich(rng: &mut Rng) -> Result<(String, Option<u8>), (u64, Rc<str>)> {
   let s = ["", "a", "ab", "b"][rng.below(4)].to_string();
   if rng.chance(1, 2) { Ok((s, if rng.chance(1, 2) { None } else { Some(rng.below(3) as u8) })) } else { Err((rng.below(3) as u64, Rc::from(["x", "y"][rng.below(2)]))) }
